@@ -6,6 +6,7 @@ import NdcubeModel.Model.Rebin
 import NdcubeModel.Model.Wrappers
 import NdcubeModel.Model.Table
 import NdcubeModel.Model.Fits
+import NdcubeModel.Model.Uncert
 
 /-!
 # Line-protocol driver
@@ -486,6 +487,41 @@ def opUnwrap (j : Json) : R Json := do
     pure <| Json.mkObj [("crpix", listJson ratJson F.crpix), ("matrix", listJson (listJson ratJson) m),
       ("naxis", listJson natJson F.naxis), ("dropped", listJson Json.bool dropped)]
 
+/-! ## uncertainty propagation in rebin (C16) -/
+
+def opUncert (j : Json) : R Json := do
+  let shape ← field j "shape" >>= asList asNat
+  let f ← field j "binShape" >>= asList asNat
+  let data ← field j "data" >>= asList asVal
+  let vars ← field j "variances" >>= asList asRat
+  let mask ← match j.getObjVal? "mask" with
+    | .ok m => asMaskIn m
+    | .error _ => pure .absent
+  let op ← field j "operation" >>= asStr >>= asReduction
+  let ign ← field j "ignoresMask" >>= asBool
+  let kindS ← field j "kind" >>= asStr
+  let kind := match kindS with
+    | "std" => UncertKind.std | "var" => .var | "unknown" => .unknown | _ => .absent
+  let outcome := propOutcome kind mask ign
+  let tag := match outcome with
+    | .warnNoUncertainty => "warn-no-uncertainty" | .warnUnknown => "warn-unknown"
+    | .warnAllMasked => "warn-all-masked" | .propagate => "propagate"
+  let newShape := zipDiv shape f
+  let flatShape := prodL f :: newShape
+  let maskBit (i : Nat) : Bool := match mask with
+    | .absent => false
+    | .scalar b => b
+    | .array bits => bits.getD i false
+  let values : List (Option Rat) :=
+    if outcome != .propagate || op == .prod || op == .min || op == .max then []
+    else (allIndices newShape).map fun jx =>
+      let ms := (List.range (prodL f)).map fun m =>
+        let i := flatMember newShape f m jx
+        ({ value := data.getD i .nan, variance := vars.getD i 0, masked := maskBit i } : Member)
+      propagateAdd op ign ms
+  pure <| Json.mkObj [("outcome", .str tag), ("flatShape", listJson natJson flatShape),
+    ("variances", listJson (optJson ratJson) values)]
+
 def dispatch (j : Json) : R Json := do
   let op ← field j "op" >>= asStr
   match op with
@@ -502,6 +538,7 @@ def dispatch (j : Json) : R Json := do
   | "compound" => opCompound j
   | "table" => opTable j
   | "unwrap" => opUnwrap j
+  | "uncert" => opUncert j
   | _ => .error s!"unknown op {op}"
 
 def handleLine (line : String) : String :=
